@@ -46,7 +46,8 @@ CALENDAR_FUNCS = {"_dt.date": _datetime.date, "_dt.date.fromordinal": _datetime.
                   "_dt.date.toordinal": _datetime.date.toordinal}
 
 _BIN = {ast.Add: operator.add, ast.Sub: operator.sub, ast.Mult: operator.mul, ast.FloorDiv: operator.floordiv,
-        ast.Mod: operator.mod, ast.Pow: operator.pow, ast.BitOr: operator.or_, ast.BitAnd: operator.and_}
+        ast.Mod: operator.mod, ast.Pow: operator.pow, ast.BitOr: operator.or_, ast.BitAnd: operator.and_,
+        ast.MatMult: operator.matmul}
 _CMP = {ast.Eq: operator.eq, ast.NotEq: operator.ne, ast.Lt: operator.lt, ast.LtE: operator.le,
         ast.Gt: operator.gt, ast.GtE: operator.ge, ast.Is: operator.is_, ast.IsNot: operator.is_not,
         ast.In: lambda a, b: a in b, ast.NotIn: lambda a, b: a not in b}
@@ -290,6 +291,11 @@ def run_function(f, args: dict, funcs=None, env=None, final_env=None, methods=No
     def _bind2(t, v):
         if isinstance(t, ast.Name):
             env[t.id] = v
+        elif isinstance(t, ast.Subscript):
+            base = ev(t.value, env, funcs, methods)
+            if not isinstance(base, (FinMat, list, dict)):
+                raise NotFinite("subscript store on an unmodelled object")
+            base[ev(t.slice, env, funcs, methods)] = v
         elif isinstance(t, ast.Attribute) and isinstance(t.value, ast.Name) and isinstance(env.get(t.value.id), FinObj):
             setattr(env[t.value.id], t.attr, v)
         elif isinstance(t, ast.Attribute) and dotted(t) is not None:
@@ -323,3 +329,122 @@ def run_function(f, args: dict, funcs=None, env=None, final_env=None, methods=No
     if final_env is not None:
         final_env.update(env)
     return None
+
+
+# ---------------------------------------------------------------------------------------------------------------------------------
+# a small exact matrix model (fractions / ints in nested lists) for constructions like K[i, i+1] = -2 ; F = s * (K.T @ K)
+# ---------------------------------------------------------------------------------------------------------------------------------
+
+class FinMat:
+    _fin_attrs = ("T", "shape", "size", "ndim")
+
+    def __init__(self, rows):
+        self.rows = [list(r) for r in rows]
+
+    @staticmethod
+    def zeros(shape, **kw):
+        if isinstance(shape, int):
+            shape = (shape, 1)
+        r, c = shape
+        return FinMat([[0] * c for _ in range(r)])
+
+    @property
+    def shape(self):
+        return (len(self.rows), len(self.rows[0]) if self.rows else 0)
+
+    @property
+    def size(self):
+        return self.shape[0] * self.shape[1]
+
+    @property
+    def ndim(self):
+        return 2
+
+    @property
+    def T(self):
+        r, c = self.shape
+        return FinMat([[self.rows[i][j] for i in range(r)] for j in range(c)])
+
+    def _idx(self, k, n):
+        if isinstance(k, slice):
+            return list(range(*k.indices(n)))
+        if isinstance(k, (list, tuple)):
+            return [x % n if x < 0 else x for x in k]
+        return None
+
+    def __getitem__(self, key):
+        if not isinstance(key, tuple) or len(key) != 2:
+            raise NotFinite("matrix index")
+        i, j = key
+        ri, cj = self._idx(i, self.shape[0]), self._idx(j, self.shape[1])
+        if ri is None and cj is None:
+            return self.rows[i][j]
+        if ri is None:
+            return [self.rows[i][c] for c in cj]
+        if cj is None:
+            return [self.rows[r][j] for r in ri]
+        return FinMat([[self.rows[r][c] for c in cj] for r in ri])
+
+    def __setitem__(self, key, value):
+        if not isinstance(key, tuple) or len(key) != 2:
+            raise NotFinite("matrix index")
+        i, j = key
+        ri, cj = self._idx(i, self.shape[0]), self._idx(j, self.shape[1])
+        if ri is None and cj is None:
+            self.rows[i][j] = value
+        elif ri is None:
+            vals = list(value) if isinstance(value, (list, tuple)) else [value] * len(cj)
+            for c, v in zip(cj, vals):
+                self.rows[i][c] = v
+        elif cj is None:
+            vals = list(value) if isinstance(value, (list, tuple)) else [value] * len(ri)
+            for r, v in zip(ri, vals):
+                self.rows[r][j] = v
+        else:
+            src = value.rows if isinstance(value, FinMat) else [[value] * len(cj) for _ in ri]
+            for a, r in enumerate(ri):
+                for b, c in enumerate(cj):
+                    self.rows[r][c] = src[a][b]
+
+    def __matmul__(self, other):
+        a, b = self.shape
+        b2, c = other.shape
+        if b != b2:
+            raise NotFinite(f"matmul of {self.shape} and {other.shape}")
+        return FinMat([[sum(self.rows[i][k] * other.rows[k][j] for k in range(b)) for j in range(c)] for i in range(a)])
+
+    def __mul__(self, s):
+        if isinstance(s, FinMat):
+            raise NotFinite("element-wise matrix product")
+        return FinMat([[s * x for x in r] for r in self.rows])
+
+    __rmul__ = __mul__
+
+    def __add__(self, other):
+        if not isinstance(other, FinMat) or other.shape != self.shape:
+            raise NotFinite("matrix sum")
+        return FinMat([[x + y for x, y in zip(r, q)] for r, q in zip(self.rows, other.rows)])
+
+    def __eq__(self, other):
+        return isinstance(other, FinMat) and self.rows == other.rows
+
+    def __repr__(self):
+        return f"FinMat({self.rows})"
+
+
+def _vstack(parts):
+    parts = list(parts)
+    if len({p.shape[1] for p in parts}) != 1:
+        raise NotFinite(f"vstack of {[p.shape for p in parts]}")
+    return FinMat([r for p in parts for r in p.rows])
+
+
+def _hstack(parts):
+    parts = list(parts)
+    if len({p.shape[0] for p in parts}) != 1:
+        raise NotFinite(f"hstack of {[p.shape for p in parts]}")
+    return FinMat([sum((p.rows[i] for p in parts), []) for i in range(parts[0].shape[0])])
+
+
+MATRIX_FUNCS = {"_np.zeros": FinMat.zeros, "np.zeros": FinMat.zeros, "_np.vstack": _vstack, "_np.hstack": _hstack,
+                "_np.eye": lambda n, **kw: FinMat([[1 if i == j else 0 for j in range(n)] for i in range(n)])}
